@@ -69,12 +69,13 @@ type dataGen struct {
 	budget int
 	pFail  int // percent of function-field results that fail
 	d      *Data
+	done   map[string][]*Obj // finished objects by type: reused now and then, so that one object is reached twice
 }
 
 // GenData draws a data tree for the schema: every object has a result for every field (and for every
 // argument value 0..2 of fields that take one).  pFail > 0 makes resolvers fail.
 func GenData(r *vh.Rng, spec *SchemaSpec, pFail int) *Data {
-	g := &dataGen{r: r, spec: spec, budget: 30 + r.Intn(30), pFail: pFail, d: &Data{ByOid: map[int64]*Obj{}}}
+	g := &dataGen{r: r, spec: spec, budget: 30 + r.Intn(30), pFail: pFail, d: &Data{ByOid: map[int64]*Obj{}}, done: map[string][]*Obj{}}
 	g.d.Root = g.obj("Query", 4)
 	return g.d
 }
@@ -99,6 +100,7 @@ func (g *dataGen) obj(typ string, depth int) *Obj {
 			o.Res[k] = &Outcome{Val: g.val(f.Ret, depth-1, f.Key)}
 		}
 	}
+	g.done[typ] = append(g.done[typ], o)
 	return o
 }
 
@@ -125,6 +127,12 @@ func (g *dataGen) val(t TRef, depth int, key bool) *Val {
 		i := g.r.Intn(3)
 		return &Val{K: "enum", I: int64(i), S: ColorNames[i]}
 	case "obj":
+		if t.ByVal {
+			return &Val{K: "obj", O: g.obj(t.Name, depth)}
+		}
+		if ds := g.done[t.Name]; len(ds) > 0 && g.r.Chance(12) {
+			return &Val{K: "obj", O: ds[g.r.Intn(len(ds))]}
+		}
 		if depth <= 0 || g.budget <= 0 || (depth < 3 && g.r.Chance(15)) {
 			return &Val{K: "null"}
 		}
@@ -147,6 +155,9 @@ func (g *dataGen) val(t TRef, depth int, key bool) *Val {
 			if t.Elem.K == "obj" || t.Elem.K == "union" || t.Elem.K == "list" {
 				n = 0
 			}
+		}
+		if g.budget < -40 {
+			n = 0
 		}
 		v := &Val{K: "list", L: []*Val{}}
 		for i := 0; i < n; i++ {
